@@ -5,7 +5,7 @@ import ast
 
 from ..context import need
 from ..loader import AnalysisError
-from .. import graph
+from .. import graph, consts
 from ..roles import node_calls
 from ..resolve import walk_scope
 from .common import fmt_facts, is_name
@@ -39,7 +39,7 @@ TABLE = {
 
 
 def run(ctx):
-    for fn in (r1_preprocessing, r2_consume_emit, r3_transitions, r3b_prompt_is_source, r3c_blank_line_tests, r4_grouping, r5_group_buffers, r6_line_counter, r1b_common_indentation_of_one_line, r3d_only_a_primary_prompt_starts_source):
+    for fn in (r1_preprocessing, r2_consume_emit, r3_transitions, r3b_prompt_is_source, r3c_blank_line_tests, r4_grouping, r5_group_buffers, r6_line_counter, r1b_common_indentation_of_one_line, r3d_only_a_primary_prompt_starts_source, r1c_indentation_pattern, r3e_prompt_recognition_on_samples):
         ctx.rep.rule(fn, ctx)
 
 
@@ -528,6 +528,87 @@ def r3d_only_a_primary_prompt_starts_source(ctx):
                '(or a prose line starting with `...` is executed)' % '|'.join(sorted(prevs)), anchor=LABEL)
 
 
+def r1c_indentation_pattern(ctx):
+    """REGEX-FACT (finite samples on the folded module-level pattern; nothing of the package runs): the common indentation is measured on the
+    NON-BLANK lines only -- the pattern that collects the indentations must report the leading blanks of a line that has a visible character and
+    must not match a line that consists of blanks only (such a line would drag the minimum down and leave the docstring partly indented)"""
+    import re as _re
+    rep = ctx.rep
+    mod = ctx.prog.module('xdoctest.parser')
+    need('INDENT_RE' in mod.assigns, 'C13.R1c: the indentation pattern INDENT_RE was not found')
+    try:
+        rx = consts.Folder(ctx.prog).fold(mod, mod.assigns['INDENT_RE'])
+    except consts.NotConstant as ex:
+        raise AnalysisError('C13.R1c: INDENT_RE does not fold: %s' % ex)
+    need(isinstance(rx, consts.Regex), 'C13.R1c: INDENT_RE is not a compiled pattern')
+    samples = [('    x = 1\n  y\nz', ['    ', '  ', '']), ('    a\n   \n    b', ['    ', '    ']), ('  \n    c', ['    ']), ('\n\n  d\n ', ['  ']), ('e', [''])]
+    bad = []
+    for text, want in samples:
+        got = [m if isinstance(m, str) else m[0] for m in _re.findall(rx.pattern, text, flags=rx.flags)]
+        if got != want:
+            bad.append((text, got, want))
+    rep.ob('C13.R1c', '%s:%d' % (mod.relpath, mod.assigns['INDENT_RE'].lineno), 'INDENT_RE = %r' % rx.pattern, not bad,
+           'reports the indentation of every line with a visible character and of no other (5 samples)' if not bad else
+           'on %r the pattern reports the indentations %r instead of %r: a line of blanks takes part in the minimum, so the common indentation is under-estimated and text / source '
+           'lines keep part of their margin' % bad[0], anchor='xdoctest.parser.INDENT_RE')
+
+
+def r3e_prompt_recognition_on_samples(ctx):
+    """FINITE-EVAL: what counts as a prompt line.  Every recognition on the way to the source label is evaluated on sample lines: a bare `>>>`
+    (an empty prompt) and `>>> x` are prompts, `>>>x` and prose are not"""
+    rep = ctx.rep
+    f, g, rd, head, entry, cut, inner, val_of, truth, cur_defs = _label_machine(ctx)
+    dom = ctx.dom(g, entry, cut)
+    hp = ctx.prog.funcs.get('xdoctest.parser._hasprefix')
+
+    class _U(Exception):
+        pass
+
+    def ev(e, line):
+        if isinstance(e, ast.Call) and isinstance(e.func, ast.Name) and hp is not None and e.func.id == '_hasprefix' and len(e.args) == 2 and isinstance(e.args[1], (ast.Tuple, ast.List)) and \
+                all(isinstance(x, ast.Constant) and isinstance(x.value, str) for x in e.args[1].elts):
+            return any(line == p_.value or line.startswith(p_.value + ' ') for p_ in e.args[1].elts)
+        if isinstance(e, ast.Call) and isinstance(e.func, ast.Attribute) and e.func.attr == 'startswith' and len(e.args) == 1:
+            a0 = e.args[0]
+            if isinstance(a0, ast.Constant) and isinstance(a0.value, str):
+                return line.startswith(a0.value)
+            if isinstance(a0, (ast.Tuple, ast.List)) and all(isinstance(x, ast.Constant) and isinstance(x.value, str) for x in a0.elts):
+                return line.startswith(tuple(x.value for x in a0.elts))
+        if isinstance(e, ast.Compare) and len(e.ops) == 1 and isinstance(e.ops[0], ast.Eq) and isinstance(e.comparators[0], ast.Constant) and isinstance(e.comparators[0].value, str):
+            return line == e.comparators[0].value
+        if isinstance(e, ast.BoolOp):
+            vs = [ev(x, line) for x in e.values]
+            return all(vs) if isinstance(e.op, ast.And) else any(vs)
+        raise _U(ast.unparse(e))
+    seen = {}
+    for d in cur_defs:
+        if not (isinstance(d.value, ast.AST) and val_of(d.value) == 'dsrc') or any(graph.in_loop_body(d.node, ih.ast) for ih in inner) or not dom.has(d.node):
+            continue
+        for fa in graph.guard_facts(dom, d.node):
+            e = fa.expr
+            if isinstance(e, ast.Name) and fa.origin is not None and fa.origin.kind == 'branch':
+                ds = rd.at(fa.origin.attrs['test'], e.id)
+                if len(ds) == 1 and isinstance(ds[0].value, ast.AST):
+                    e = ds[0].value
+            if fa.polarity is True and isinstance(e, ast.AST) and any(isinstance(x, ast.Constant) and isinstance(x.value, str) and x.value.startswith('>>>') for x in ast.walk(e)) and \
+                    not any(isinstance(x, ast.Constant) and x.value == '...' for x in ast.walk(e)):
+                seen.setdefault(ast.unparse(e), (e, d))
+    rep.floor('C13.R3e', 'primary-prompt recognitions on the way to the source label', len(seen), 1)
+    for txt, (e, d) in sorted(seen.items()):
+        rows = []
+        try:
+            for line, want in (('>>>', True), ('>>> x = 1', True), ('>>>x', False), ('x >>> y', False), ('text', False)):
+                if bool(ev(e, line)) != want:
+                    rows.append((line, not want))
+        except _U as ex:
+            raise AnalysisError('C13.R3e: a prompt recognition was not understood: %s' % ex)
+        rep.ob('C13.R3e', ctx.loc(f, e), txt[:80], not rows,
+               'an empty prompt and a prompt with code are recognised, `>>>x` and prose are not' if not rows else
+               'the line %r is %s as a prompt line: %s' % (rows[0][0], 'taken' if rows[0][1] else 'NOT taken',
+                                                          'an empty prompt that opens an example is labelled prose and the part starts one line late' if rows[0][0] == '>>>' else
+                                                          'what is / is not doctest source changes'), anchor=LABEL)
+
+
 def r3c_blank_line_tests(ctx):
     """a want ends at the first blank line and a blank line ends a source block: "blank" means empty after stripping.  The emptiness tests of the
     labeller must look at the stripped line, not at the line cut at the remembered indentation (a spaces-only line longer than that indentation is not empty there)"""
@@ -821,6 +902,8 @@ from ..selftest import fire, silent      # noqa: E402
 
 PA = 'xdoctest/parser.py'
 VARIANTS = [
+    fire('blank-lines-take-part-in-the-common-indentation', 'C13.R1c', ('xdoctest/parser.py', "INDENT_RE = re.compile(r'^([ ]*)(?=\\S)', re.MULTILINE)\n", "INDENT_RE = re.compile(r'^([ ]*)(?=.)', re.MULTILINE)\n")),
+    fire('bare-prompt-not-a-prompt', 'C13.R3e', ('xdoctest/parser.py', "                if _hasprefix(strip_line, ('>>>',)):\n                    curr_state = DSRC\n", "                if strip_line.startswith('>>> '):\n                    curr_state = DSRC\n")),
     fire('ellipsis-line-of-a-want-taken-as-source', 'C13.R3d', ('xdoctest/parser.py', "                elif _hasprefix(line.strip(), ('>>>',)):\n", "                elif _hasprefix(line.strip(), ('>>>', '...')):\n")),
     fire('prose-continuation-marker-taken-as-source', 'C13.R3d', ('xdoctest/parser.py', "                if _hasprefix(strip_line, ('>>>',)):\n                    curr_state = DSRC\n", "                if _hasprefix(strip_line, ('>>>', '...')):\n                    curr_state = DSRC\n")),
     fire('single-line-not-deindented', 'C13.R1b', ('xdoctest/parser.py', "    if len(indents) > 0:\n        return min(indents)\n", "    if len(indents) > 1:\n        return min(indents)\n")),
